@@ -17,14 +17,22 @@ def isNoneLike : Option DVal → Bool
 
 def falsyDoc (d : Option String) : Bool := d == none || d == some ""
 
-def mergePresent (other target : Param) : Param :=
-  let t1 := if falsyDoc target.doc && !falsyDoc other.doc then { target with doc := other.doc } else target
-  let t2 := if other.typ != none &&
-               (t1.typ == none || (match t1.typ, other.typ with
-                                   | some tt, some ot => isSimple tt && !isSimple ot
-                                   | _, _ => false))
-            then { t1 with typ := other.typ } else t1
-  if isNoneLike t2.default && other.default != none then { t2 with default := other.default } else t2
+/-- `if not target.get("doc") and other.get("doc"): target["doc"] = other["doc"]` -/
+def mpDoc (other target : Param) : Param :=
+  if falsyDoc target.doc && !falsyDoc other.doc then { target with doc := other.doc } else target
+/-- the type of `other` wins when `target` has none, or has a simple one while `other`'s is compound -/
+def mpTyp (other target : Param) : Param :=
+  if other.typ != none &&
+     (target.typ == none || (match target.typ, other.typ with
+                             | some tt, some ot => isSimple tt && !isSimple ot
+                             | _, _ => false))
+  then { target with typ := other.typ } else target
+/-- `if target.get("default") in none_types and other.get("default") is not None: target["default"] = other["default"]` -/
+def mpDefault (other target : Param) : Param :=
+  if isNoneLike target.default && other.default != none then { target with default := other.default } else target
+
+/-- `merge_present_params(other_param, target_param)` (the new value of the mutated target) -/
+def mergePresent (other target : Param) : Param := mpDefault other (mpTyp other (mpDoc other target))
 
 def dmodify (d : Dict) (k : String) (f : Param → Param) : Dict := d.map (fun kv => if kv.1 == k then (kv.1, f kv.2) else kv)
 
